@@ -100,6 +100,7 @@ PROPS["C16"] = {"units": [
     rapid_unit("in-package", "vfilter", "^TestC16Loss$", 1500, 16 * 6000, overlay="full"),
     rapid_unit("e2e", "vnete2e", "^TestC16LossE2E$", 150, 16 * 1000, overlay="plain"),
     rapid_unit("long-stream", "vfilter", "^TestC16LongStream$", 10, 16 * 40, overlay="full", shrinktime="1s"),
+    rapid_unit("concurrent-arrivals", "vfilter", "^TestC16Concurrent$", 60, 16 * 300, overlay="full", shrinktime="3s"),
 ]}
 
 PROPS["C02"] = {"units": [
@@ -167,6 +168,7 @@ PROPS["C19"] = {"units": [
     plain_unit("regress", "race", "^TestRegressC19", race=True),
     rapid_unit("programs", "race", "^TestC19Programs$", 700, 16 * 6000, race=True,
                replay_run="^TestC19Replay$", shrinktime="1s"),
+    rapid_unit("filters-direct", "vfilter", "^TestC19FiltersDirect$", 200, 16 * 1500, overlay="full", race=True, shrinktime="1s"),
 ]}
 
 PROPS["C01"] = {"units": [
